@@ -5,8 +5,8 @@
 (*    "sig_ok":bool,"pk_ok":bool,"res":"true"|"false"|"panic"|"na","tag":"..."}                     *)
 (* sig_ok / pk_ok are the outcomes of Signature::from_bytes / PublicKey::from_bytes; res is the    *)
 (* outcome of verify when both decoded ("na" otherwise).  TLC recomputes everything from the      *)
-(* bytes.  An event conforms iff the decoders' verdicts equal DecodeSig/DecodePK and the verify   *)
-(* verdict equals SpecVerify; a panic never conforms.  Non-conforming events are collected in     *)
+(* bytes.  An event conforms iff the code ACCEPTS the triple (both decode and verify = true) exactly *)
+(* when the specification does; a panic never conforms.  Non-conforming events are collected in     *)
 (* `bad` (the trace is accepted iff bad = {} at the end); every event prints a VERDICT line.      *)
 (* Events with "honest":true were produced by sign() itself under the matching key: for them the   *)
 (* specification's verdict must moreover be TRUE (C01: Completeness).                             *)
@@ -19,8 +19,14 @@ Judge(e) ==
       ds == DecodeSig(e.sig, P)  dp == DecodePK(e.pk, P)
       r == IF ds.ok /\ dp.ok THEN VerifyParts(e.msg, ds.salt, ds.body, dp.h, P)
            ELSE [accept |-> FALSE, branch |-> IF ~ds.ok THEN "undecodable-sig-" \o ds.why ELSE "undecodable-pk-" \o dp.why, norm |-> -1]
-      expect == IF ds.ok /\ dp.ok THEN (IF r.accept THEN "true" ELSE "false") ELSE "na"
-  IN [ok |-> e.sig_ok = ds.ok /\ e.pk_ok = dp.ok /\ e.res = expect /\ (e.honest => expect = "true"),
+      \* C02 is a statement about ACCEPTANCE: the triple is accepted by the code (both objects decode and verify returns true)
+      \* exactly when the specification accepts it.  Where a decoder draws the line between "undecodable" and "decodable but
+      \* rejected by verify" is not part of it (a from_bytes that also validates the compressed body is conforming); the
+      \* decoders' own contracts are C05 / C06 (Trace_Decode).  A panic never conforms.
+      specAccept == ds.ok /\ dp.ok /\ r.accept
+      codeAccept == e.res = "true"
+      expect == IF specAccept THEN "true" ELSE IF ds.ok /\ dp.ok THEN "false" ELSE "na"
+  IN [ok |-> e.res # "panic" /\ codeAccept = specAccept /\ (e.honest => specAccept),
       branch |-> r.branch, norm |-> r.norm, expect |-> expect, sig_ok |-> ds.ok, pk_ok |-> dp.ok]
 
 \* TLC evaluates this constant once, outside the action context (where it would not cache LET values)
